@@ -19,7 +19,7 @@ func init() {
 	property("C19",
 		"Static conformance of the lexer's position bookkeeping and tables: (a) width-fact typestate over every token construction site — a start/end column may be derived as 'counter - k' only where the last k characters are known to be one byte wide (ASCII case arms, peeked ASCII second characters); after a reader loop the current character is a lookahead of unknown width (possibly none at end of input), so the prev* counters must be used; byte counters go to byte fields and character counters to character fields; start fields are read before the token's first character is consumed; (b) readChar restarts the four column counters and increments the line exactly when the previous character was a newline; end of input is readPosition >= len(input) in readChar and peekChar alike, and readChar is the only function that stores the position, line and column counters; (c) on every non-queued path whitespace {space, tab, LF, CR} and '#' / '//' comments are skipped before the dispatch; (d) the keyword table equals the README keyword list; plus the token-origin clauses of C16.c and the lexer start state / -lm wiring of C17.f. NOT decided: layout invariance of the token sequence itself (runtime string scanning; false by design where an identifier touches a quote or a comment separates adjacent strings). Every counter store of readChar is a row of the position model under exactly its effective condition (C19.b); token literals are built from source text (C19.f); positions are data outside the lexer (C16.d). NextToken enters its word arm exactly for a letter and its number arm for a digit or a minus before a digit (C19.g); only the five fields the input is read through may decide anything in the lexer (C19.b); the input is cut at positions the lexer stood at and a constant prefix spells characters that were tested (C19.f).",
 		[]string{"unicode.IsLetter / IsDigit / utf8.DecodeRuneInString behave as documented", "go/ssa lowering is faithful to the source"},
-		"C19.a", "C19.b", "C19.c", "C19.d", "C19.e", "C16.a", "C16.c", "C17.f", "C19.f", "C16.d", "C19.g", "C18.m")
+		"C19.a", "C19.b", "C19.c", "C19.d", "C19.e", "C16.a", "C16.c", "C17.f", "C19.f", "C16.d", "C19.g", "C18.m", "C18.d", "C18.n")
 
 	register(&Rule{ID: "C19.a", Doc: "width-fact typestate over token construction sites", Floor: 66, Run: c19a})
 	register(&Rule{ID: "C19.b", Doc: "readChar line/column reset; end-of-input test shared by readChar and peekChar", Floor: 15, Run: c19b})
